@@ -313,7 +313,7 @@ def gen_cases(h, tier, seed):
             seen.add(k); cases.append(c)
     return cases
 
-def run_impl(h, cases, budget, order=None):
+def run_impl(h, cases, budget, order=None, twice=False):
     """observations of the implementation on `cases`, called in the given order (default: as generated); a (changed)
     implementation that gets slower and slower is cut off at the time budget: returns the observations made (index -> obs)"""
     import resource
@@ -331,6 +331,9 @@ def run_impl(h, cases, budget, order=None):
                 print("NOTE: implementation phase stopped after %d of %d cases (time budget %.0f s)" % (len(obs), len(cases), budget))
                 break
             obs[i] = call_impl(h.IMPL, cases[i])
+            if twice:
+                # the same call once more, immediately: the answer to a repeated question is the one that is kept
+                obs[i] = call_impl(h.IMPL, cases[i])
     finally:
         try:
             resource.setrlimit(resource.RLIMIT_AS, (soft, hard))
@@ -339,7 +342,8 @@ def run_impl(h, cases, budget, order=None):
     return obs
 
 def second_pass(h, tier, seed, cases, budget):
-    """the same calls once more, in a FRESH interpreter and in REVERSE order: whatever the library remembers between calls
+    """the same calls once more, in a FRESH interpreter, in REVERSE order and each made TWICE in a row (the second answer is
+    kept): whatever the library remembers between calls
     (memo tables, class-level lists, default arguments, module-level caches) is then filled in another order, so an answer that
     depends on what was asked before is judged a second time.  Returns {index in `cases`: observation}."""
     import pickle, tempfile
@@ -364,7 +368,7 @@ def second_pass_worker(pid, tier, seed, out):
     h = importlib.import_module("harness.%s" % pid.lower())
     cases = gen_cases(h, tier, seed)
     budget = float(os.environ.get("VERIF_IMPL_BUDGET", "240"))
-    obs = run_impl(h, cases, budget, order=list(range(len(cases) - 1, -1, -1)))
+    obs = run_impl(h, cases, budget, order=list(range(len(cases) - 1, -1, -1)), twice=True)
     res = {}
     for i, o in obs.items():
         try:
@@ -478,7 +482,7 @@ def pyrepr(v):
 def case_json(c, obs, extra=None):
     d = {"fn": c["fn"], "args": pyrepr(norm_json(c["args"])), "impl": pyrepr(norm_json(obs))}
     if isinstance(c, dict) and c.get("second_pass"):
-        d["second_pass"] = "fresh interpreter, all cases of the run called in reverse order of generation"
+        d["second_pass"] = "fresh interpreter, all cases of the run called in reverse order of generation, each twice in a row (second answer)"
     if extra is not None:
         d.update(extra)
     return d
@@ -626,7 +630,7 @@ def main(argv):
             "evaluations": len(cases),
             "distinct_nontrivial": nontriv,
             "rule": getattr(h, "RULE", "") + " | non-trivial = distinct op line whose implementation observation is neither an error nor empty"
-                    " | every case is run twice: in generation order, and again in a fresh interpreter in reverse order",
+                    " | every case is run again in a fresh interpreter, in reverse order, twice in a row (second answer judged)",
             "samples": samples,
             "exhaustive": bool(getattr(h, "EXHAUSTIVE", {}).get(tier, False)),
             "compared_with_model": len(model_obs),
@@ -652,7 +656,7 @@ def main(argv):
 def human(c):
     s = "%s(%s)" % (c["fn"], ", ".join(repr(a) for a in c["args"]))
     s = s if len(s) < 400 else s[:400] + "…"
-    return s + (" [asked in a fresh interpreter, the cases in reverse order]" if c.get("second_pass") else "")
+    return s + (" [second pass: fresh interpreter, cases in reverse order, each asked twice in a row - this is the second answer]" if c.get("second_pass") else "")
 
 def human_obs(o):
     s = repr(o)
